@@ -819,7 +819,8 @@ fn gen_step(rng: &mut Rng, n: usize, tags: &mut Vec<&'static str>) -> Step {
         "set_is_empty" => vec![if n > 0 && rng.chance(1, 3) { format!("${{o{}}}", rng.below(n)) } else { ["${s1}", "${s2}"][rng.below(2)].to_string() }],
         "is_windows" | "print_env" => vec![],
         "uname" => if rng.chance(1, 2) { vec!["-a".to_string()] } else { vec![] },
-        "glob_cp" => vec![["@T/src/*.txt", "@T/src/**/*.txt", "@T/src/a.txt", "@T/none/*.txt", "@T/none"][rng.below(5)].to_string(), "@T/dst".to_string()],
+        // (one call in four copies ONTO the directory the glob was taken from: every match is its own target)
+        "glob_cp" => vec![["@T/src/*.txt", "@T/src/**/*.txt", "@T/src/a.txt", "@T/none/*.txt", "@T/none"][rng.below(5)].to_string(), if rng.chance(1, 4) { "@T/src".to_string() } else { "@T/dst".to_string() }],
         "glob_chmod" => vec![["777", "644", "755", "+644", "100644", "0600", "+0755"][rng.below(7)].to_string(), ["@T/src/*.txt", "@T/none/*", "@T/dst/*"][rng.below(3)].to_string()],
         "join_path" => (0..1 + rng.below(4)).map(|_| safe_token(rng)).collect(),
         "sha256sum" | "sha512sum" => vec![["@T/src/a.txt", "@T/none"][rng.below(2)].to_string()],
@@ -1185,7 +1186,9 @@ impl Prop for C19Prop {
                 }
                 // glob_cp <glob> <target>: cp fails inside the for loop (the handle exists only in the
                 // glob branch), `release ${scope::glob_cp::handle}` is never reached
-                "glob_cp" | "cp_glob" if step.args.len() >= 2 && step.args[0].contains('*') => {
+                // (not when the target is one of the two existing DIRECTORIES of the layout: copying a
+                // match into `@T/dst`, or onto itself in `@T/src`, succeeds in the recorded implementation)
+                "glob_cp" | "cp_glob" if step.args.len() >= 2 && step.args[0].contains('*') && step.args[1] != "@T/dst" && step.args[1] != "@T/src" => {
                     ids.insert("C19/glob-cp-error-leaks-handle");
                 }
                 _ => return None,
